@@ -5,6 +5,7 @@ input the macro never inspected it forces that node, which forks the exploration
 (macro ; spec) is explored path-completely.  Obligations are python booleans or solver terms; the explorer
 discharges `path condition AND NOT obligation` with z3."""
 
+import re
 import z3
 from .values import *
 from . import synprint, rsview
@@ -348,6 +349,9 @@ def spec_fn_like(ex, mode, variant, attr0, fns, out_value, O, mod_info=None):
                 expect_err = ('Using concrete dependencies in a module is an anti-pattern' if mode == 'mod'
                               else 'Cannot (yet) use concrete dependency in an impl block')
                 break
+    if mode == 'fn' and expect_err is None and any(d.kind == 'concrete' for d in deps):
+        O.add('C05', 'concrete-dependency-type-is-accepted', out_value.variant == 'Ok',
+              f'the macro rejected a concrete dependency type: `{out_value.fields[0].fields[1] if out_value.variant == "Err" else ""}`')
     if out_value.variant == 'Err':
         msg = out_value.fields[0].fields[1]
         O.add('C15', 'error-only-for-documented-misuse', expect_err is not None and isinstance(msg, str) and msg.startswith(expect_err),
@@ -429,6 +433,14 @@ def fn_method_expectations(I, f, d, eff, O, method_trait, method_impl, mode, fn_
     params = [p for p in mi.params if p.receiver is None]
     recv = [p for p in mi.params if p.receiver is not None]
     names = [p.name() for p in params]
+    # the trait declaration is what callers, mocks and hand-written impls see: the same naming rules hold there
+    t_names = [p.name() for p in mt.params if p.receiver is None]
+    O.add('C16', f'{tag}:trait-method-parameters-are-plain-identifiers', all(n is not None for n in t_names),
+          f'patterns {[show(p.pat) for p in mt.params if p.receiver is None]}')
+    for k_, n_ in enumerate(t_names):
+        if n_ is not None and not (mode in ('impl_static', 'impl_dyn') and k_ == 0):
+            O.add('C16', f'{tag}:trait-method-parameter-does-not-shadow-the-fn', znot(name_eq(n_, fname)), f'trait method parameter {n_}, the fn {fname}',
+                  cls='generated-for-a-pattern' if isinstance(n_, str) and re.match(r'^_*arg\d+$', n_) else '')
     bad_modes = sorted({str(t[1]) for p in params if p.name() is None for t in p.pat if t[0] in ('I', 'P') and isinstance(t[1], str) and t[1] in ('mut', 'ref', '@')})
     O.add('C16', f'{tag}:every-parameter-is-a-plain-identifier', all(n is not None for n in names),
           f'patterns {[show(p.pat) for p in params]}', cls=('binding-mode-kept:' + '+'.join(bad_modes)) if bad_modes else '')
@@ -508,14 +520,32 @@ def fn_method_expectations(I, f, d, eff, O, method_trait, method_impl, mode, fn_
     def name_form(k):
         """how the k-th generated name came about (keys known findings by the kind of collision)"""
         n = user_names[k]
+        if isinstance(n, z3.ExprRef) and n.decl().kind() == z3.Z3_OP_SEQ_CONCAT:
+            return 'renamed-after-the-fn'
+        if isinstance(n, str) and ((isinstance(fname, str) and n == fname + '_') or re.match(r'^_*arg\d+_$', n)):
+            return 'renamed-after-the-fn'   # also a lifted / generated name that was then renamed
         if len(user_names) == len(user_params) and user_params[k].variant == 'Typed':
             pk = I.unbox(I.f(ex.force_slot(user_params[k].fields, 0), 'pat')).variant
             if pk != 'Ident':
                 return 'generated-for-a-pattern'
-        if isinstance(n, z3.ExprRef) and n.decl().kind() == z3.Z3_OP_SEQ_CONCAT:
-            return 'renamed-after-the-fn'
         return 'as-written'
-    for a_i in range(len(user_names)):
+
+    def written_bindings():
+        out = []
+
+        def walk(toks):
+            for t in toks:
+                if t[0] == 'G':
+                    walk(t[2])
+                elif t[0] == 'I' and isinstance(t[1], str) and t[1][:1].islower() and t[1] not in ('mut', 'ref'):
+                    out.append(t[1])
+        for up in user_params:
+            if up.variant == 'Typed':
+                walk(I.toks(I.unbox(I.f(ex.force_slot(up.fields, 0), 'pat'))))
+        return out
+    wb = written_bindings()
+    legal_bindings = len(wb) == len(set(wb))   # one name bound twice in a parameter list is not legal Rust (E0415): outside the property
+    for a_i in range(len(user_names) if legal_bindings else 0):
         for b_i in range(a_i + 1, len(user_names)):
             O.add('C16', f'{tag}:generated-names-pairwise-distinct', znot(name_eq(user_names[a_i], user_names[b_i])),
                   f'parameters {a_i} and {b_i} of {user_names}', cls='~'.join(sorted([name_form(a_i), name_form(b_i)])))
@@ -804,6 +834,9 @@ def trait_impl_expectations(I, eff, deps, fns, trait_item, impl_item, attr0, mod
         for f in fns:
             gen_in = I.f(I.f(f, 'fn_sig'), 'generics')
             declared = {I.toks(gp)[0][1] for gp in I.items(gen_in, 'params') if gp.variant == 'Lifetime'}
+            for gp in I.items(gen_in, 'params'):
+                if gp.variant != 'Lifetime' and not (lts(I.toks(gp)) - {'static'}) <= declared:
+                    legal_in = False
             wc = I.f(gen_in, 'where_clause')
             if wc.variant == 'Some':
                 for pred in I.items(ex.force_slot(wc.fields, 0), 'predicates'):
@@ -813,10 +846,13 @@ def trait_impl_expectations(I, eff, deps, fns, trait_item, impl_item, attr0, mod
             for hname, hdr_generics, hdr_rest in (('trait', trait_item.generics, [x for p_ in trait_item.where for x in p_]),
                                                   ('impl', gens, [x for p_ in impl_item.where for x in p_])):
                 decl = {g[0][1] for g in hdr_generics if g and g[0][0] == 'LT'}
+                in_generics = lts([x for g in hdr_generics for x in g[1:]]) - {'static'} - decl
+                in_where = lts(hdr_rest) - {'static'} - decl
                 used = (lts(hdr_rest) | lts([x for g in hdr_generics for x in g[1:]])) - {'static'}
+                from_bound = any((lts(I.toks(gp)) - {'static'}) for f in fns for gp in I.items(I.f(I.f(f, 'fn_sig'), 'generics'), 'params') if gp.variant == 'Type')
                 O.add('C03', f'{hname}-header-names-only-lifetimes-it-declares', used <= decl,
                       f'the generated {hname} header uses {sorted(used - decl)} which it does not declare (they are parameters of the method)',
-                      cls='lifetime-where-predicate-lifted')
+                      cls='lifetime-bound-of-a-type-parameter' if (in_generics or from_bound) else 'lifetime-in-a-lifted-where-predicate')
         for p in preds:
             O.add('C04', 'no-undeclared-predicate-on-impl', any(toks_eq(p, r_) is True for r_ in rest), f'`{show(p, 80)}`')
         for p in tw:
@@ -908,6 +944,12 @@ def c11_unimock_params(I, eff, deps, fns, tm, params, mode, O):
     entries = []
     for f, d, m in zip(fns, deps, tm):
         fname = I.f(I.f(f, 'fn_sig'), 'ident').name
+        # unimock's generated `impl Trait for Unimock` calls `fname(self, <the trait method's parameter names>)`: a parameter of the
+        # TRAIT method spelled like the fn would be called instead of the fn
+        for p in m.params:
+            if p.receiver is None and p.name() is not None:
+                O.add('C11', 'trait-method-parameter-does-not-shadow-the-unmocked-fn', znot(name_eq(p.name(), fname)),
+                      f'trait method parameter `{p.name()}` of `{fname}`')
         if d.kind == 'generic':
             entries.append([('I', fname)])
         elif d.kind == 'concrete':
@@ -1052,7 +1094,9 @@ def spec_fn_mode(ex, variant, attr0, item0, out_value):
     O.add('C13', 'trait-named-as-requested', name_eq(trait_item.name[1], tid))
     O.add('C01', 'impl-implements-the-generated-trait', bool(impl_item.trait_ref) and name_eq(impl_item.trait_ref[0][1], tid))
     # ---- C19 ---------------------------------------------------------------------------------------------------
-    bad = c19_unrooted_idents(rest)
+    # (a parameter spelled like the fn is renamed `<fn>_`: a binding name, used as such in the delegation and the unmock list)
+    fn_nm = I.f(I.f(item0, 'fn_sig'), 'ident').name
+    bad = c19_unrooted_idents(rest, extra_ok=((fn_nm + '_',) if isinstance(fn_nm, str) else ()))
     O.add('C19', 'macro-originated-identifiers-are-rooted-or-reserved', not bad, f'bare identifiers {sorted(set(bad))}')
     return O
 
@@ -1215,7 +1259,8 @@ def spec_mod_mode(ex, variant, attr0, item0, out_value):
     want_use = I.toks(req_vis) + [('I', 'use'), ('I', I.f(item0, 'ident').name), ('P', '::'), ('I', tid), ('P', ';')]
     O.add('C13', 're-export-with-the-requested-visibility', toks_eq(use.tokens, want_use), f'`{show(use.tokens)}` vs `{show(want_use)}`')
     O.add('C08', 'trait-named-as-requested', name_eq(trait_item.name[1], tid))
-    bad = c19_unrooted_idents(body[pos:] + use.tokens)
+    renamed = tuple(nm + '_' for nm in (I.f(I.f(f_, 'fn_sig'), 'ident').name for f_ in fns) if isinstance(nm, str))
+    bad = c19_unrooted_idents(body[pos:] + use.tokens, extra_ok=renamed)
     O.add('C19', 'macro-originated-identifiers-are-rooted-or-reserved', not bad, f'bare identifiers {sorted(set(bad))}')
     return O
 
@@ -1664,6 +1709,12 @@ def spec_trait_mode(ex, variant, attr0, item0, out_value):
         body = strip_trailing_commas(normalize_sync_path(list(mi.body or [])))
         prop = 'C07' if has_it else 'C06'
         O.add(prop, f'{tag}:forwarding-call-shape', toks_eq(body, strip_trailing_commas(call)), f'`{show(body, 260)}` expected `{show(call, 260)}`')
+        if kind not in ('ref', 'borrow'):
+            O.add('C14', f'{tag}:no-boxing-in-a-statically-dispatched-delegating-method', not contains_ident(body, ('Box', 'dyn', 'Pin', 'pin')),
+                  f'`{show(body, 200)}`')
+        if not has_it and kind in ('none', 'self'):
+            # the leaf trait of a concrete-dependency function goes through exactly this expansion (nested `#[entrait]` on the trait)
+            O.add('C05', f'{tag}:leaf-trait-forwards-to-T', toks_eq(body, strip_trailing_commas(call)), f'`{show(body, 260)}` expected `{show(call, 260)}`')
         O.add('C12', f'{tag}:await-iff-async', has_await(body) == is_async)
     # ---- the Impl<T> impl header ------------------------------------------------------------------------------------------------
     g0 = impl_item.generics[0] if impl_item.generics else []
@@ -1693,6 +1744,9 @@ def spec_trait_mode(ex, variant, attr0, item0, out_value):
         want = T_colon() + [('I', tname)] + angle(targs) + S('Sync') + (ST if contains_async else [])
     prop = 'C07' if has_it else 'C06'
     O.add(prop, 'provider-bound-on-T-per-selector', toks_eq(first, want), f'`{show(first, 260)}` expected `{show(want, 260)}`')
+    if not has_it and kind in ('none', 'self'):
+        O.add('C05', 'leaf-trait-is-implemented-for-Impl<T>-where-T-implements-it', zand(toks_eq(first, want), toks_eq(impl_item.self_ty, IMPL_PATH)),
+              f'`{show(first, 200)}` / `{show(impl_item.self_ty)}`')
     rest = preds[1:]
     O.add('C06', 'remaining-predicates-are-the-trait-where-clause', len(rest) == len(w_in) and zand(*[toks_eq(a, b) for a, b in zip(rest, w_in)]),
           f'{[show(p, 80) for p in rest]} vs {[show(p, 80) for p in w_in]}')
@@ -1836,7 +1890,9 @@ def spec_front_attr(ex, target, cells, parsed, attr0):
             O.add('C15', 'rejection-has-a-diagnostic-at-the-offending-token', isinstance(e.fields[0], Span) and e.fields[0].origin != 'call_site' and
                   isinstance(msg, str) and any(msg.startswith(p) or p in msg for p in DOCUMENTED_ERRORS), f'message `{msg}` span {e.fields[0]}')
             if ref[1].startswith('unknown option'):
-                O.add('C15', 'unknown-option-message', isinstance(msg, str) and msg.startswith('Unkonwn entrait option'), f'`{msg}`')
+                # (on a trait an unparsable first option is re-read as the delegation-target name: syn's own "expected .." diagnostic)
+                O.add('C15', 'unknown-option-message', isinstance(msg, str) and (msg.startswith('Unkonwn entrait option') or
+                                                                                (target == 'trait' and msg.startswith('expected '))), f'`{msg}`')
             if 'is not documented for' in ref[1]:
                 self_val = any(lz.get(i) == ('I', 'Self') for i in range(len(cells)))
                 O.add('C15', 'unsupported-option-message', isinstance(msg, str) and msg.startswith('Unsupported option'), f'`{msg}`',
